@@ -26,7 +26,7 @@
     C38_export_err_*       when Export fails, and only then
     C38_reachable_inv      the invariants the above need hold in every reachable state
 -/
-import Influx.Lemmas.BackupExport
+import Influx.Lemmas.BackupTrace4
 import Influx.Spec.C38
 
 namespace Influx.Props.C38
@@ -291,7 +291,30 @@ theorem C38_export_ok (s : Shard) (a e : TS)
       simp [hbo] at this
     · exact ⟨_, rfl⟩
 
+/-! ### the statement checker on the model's own traces -/
+
+/-- **C38_holdsOn (partial)**: on every trace of the model — any sequence of writes,
+    range deletes, snapshots, compactions, mtime changes, backups, exports, restores
+    and imports — the statement checker `Spec.C38` (the one the check evaluates on the
+    REAL engine's answers) reports nothing but the four known kinds of failure
+    (`Sig.known`: tombstones lost by restore, whole-block exports, the two Export
+    errors): never a wrong restore without tombstone file, a missing incremental
+    file, a point missing from an export, an exported point outside the overlapping
+    blocks, an unexplained Export error.
+    Hypothesis `SeriesAlong`: after every step, "no tombstone file ⇒ every block key
+    is listed in the series index" (decidable; compared with the real index on every
+    run; not yet proved an invariant of deletes — see notes/C38.md). -/
+theorem C38_holdsOn_partial (ops : List Op) (hs : SeriesAlong State.init ops) :
+    Spec.C38.holdsModuloKnown (run State.init ops) = true := by
+  unfold Spec.C38.holdsModuloKnown Spec.C38.failures
+  rw [List.all_eq_true]
+  exact failures_known ops State.init [] Shard.Inv_empty Linked.nil hs
+
 -- non-vacuity of the hypotheses used above
+example : SeriesAlong State.init
+    [.write 0 1 1 3 100, .snap, .delete [0] 2 2, .backup "a" none, .restore ["a"], .compact,
+     .backup "b" none, .restore ["b"], .export "e" 1 2, .importA ["e"]] := by
+  simp only [SeriesAlong]; decide
 example : exportWitness.Inv := Shard.Inv_flush _ (Shard.Inv_write _ Shard.Inv_empty _ _ _ _ _)
 example : ∀ f ∈ exportWitness.files, f.tombs = [] := by decide
 example : ∃ ar, (exportWitness.export 3 5).2 = .ok ar := ⟨_, rfl⟩
